@@ -6,7 +6,7 @@
 From Coq Require Import ZArith List Permutation Sorted.
 Import ListNotations.
 From Mds Require Import Heapq.HeapqModel Heapq.HeapqSpec Heapq.HeapqHist Heapq.HeapqOrder Heapq.HeapqRepaired
-  Heapq.HeapqTriggerSpec Heapq.HeapqTriggers.
+  Heapq.HeapqTriggerSpec Heapq.HeapqTriggers Heapq.HeapqSkel Heapq.HeapqInst Heapq.HeapqInstProofs.
 Local Open Scope Z_scope.
 
 (* Contents, for EVERY variant, every element type, every comparison function (no contract), every
@@ -168,3 +168,18 @@ Example C05_refuted_histories_repaired :
   pop_values Z (run Z repaired (New Z zcmp) (f1_history ++ [OPop])) = [6; 7; 8; 13] /\
   pop_values Z (run Z repaired (New Z zcmp) (f2_history ++ [OPop])) = [5; 1; 2; 3].
 Proof. split; [exact f1_repaired_ok|exact f2_repaired_ok]. Qed.
+
+(* The hand-written control skeleton of the model is the one of the source: for each of the 19
+   functions of heapq.go its statement skeleton (regenerated from the Go AST on every run) is the
+   one the model was transcribed from, and the statement orders / call arguments the model depends
+   on are as modelled (HeapqSkel.v).  An added guard, an early return, a dropped or reordered
+   statement stops the build here. *)
+Theorem C05_skeleton : skeleton_of_source = skeleton_of_model /\ calls_as_modelled.
+Proof. exact skeleton_pinned. Qed.
+Print Assumptions C05_skeleton.
+
+(* The eight comparison functions of the correspondence runs satisfy New's contract, so the order
+   theorems above apply to every generated history. *)
+Theorem C05_harness_comparators_lawful : forall code : Z, total_preorder elt (ccmp code).
+Proof. exact ccmp_total_preorder. Qed.
+Print Assumptions C05_harness_comparators_lawful.
